@@ -97,6 +97,7 @@ func init() {
 		runFamily(r, "C05", []famRun{famRunOf("MemWalk", sizeForTier()), famRunOf("LineFill", sizeForTier()), famRunOf("Repo", sizeForTier()), famRunOf("Unroll", "small")}, cfgsFrom(3),
 			func(c *ProgCase) bool { return c.Exp.N > 100 || c.Fam == "LineFill" },
 			func(c *ProgCase, o Obs) (bool, string) { return true, o.Describe() })
+		rigFinalMemory(r)
 	})
 	// ------------------------------------------------------------------ C09
 	register("C09", func(r *Reporter) {
@@ -318,6 +319,93 @@ func runFamilyAll(r *Reporter, prop string, runs []famRun, configs func(c *ProgC
 			inconclusive("%s generated no case", fr.Module)
 		}
 	}
+}
+
+// rigFinalMemory (C05 at the level of the cache controllers): the request schedules of the verif rig that
+// contain no flush are run on the real controllers of MVP-7.0/7.1/8; after the final export main memory
+// must hold, at every address that received exactly one write (or writes from one core only), the value of
+// the (last) write - "no dirty data remains only in a cache", including across capacity evictions of L1 and,
+// on MVP-8, of the shared L3 (the design model spec/L3.tla predicts how a store is lost there).
+func rigFinalMemory(r *Reporter) {
+	n, checked := 0, 0
+	var mu sync.Mutex
+	for _, variant := range []string{"mvp7-0", "mvp7-1", "mvp8-0"} {
+		var scheds []rigSchedule
+	next:
+		for _, s := range rigSchedules(variant) {
+			writes := 0
+			for _, e := range s.Events {
+				if e.Kind == "F" {
+					continue next
+				}
+				if e.Kind == "W" {
+					writes++
+				}
+			}
+			if writes > 0 && (len(s.Events) >= 17 || s.Cores >= 3) {
+				scheds = append(scheds, s)
+			}
+		}
+		ch := make(chan int, 64)
+		go func() {
+			for i := range scheds {
+				ch <- i
+			}
+			close(ch)
+		}()
+		parallel(ch, 16, func(i int) {
+			s := scheds[i]
+			_, pm, stuck, _, mem, written := runScheduleM(s)
+			r.Eval("rigmem|"+hashKey(s.String()), true)
+			r.addTraces(1)
+			if pm != "" || stuck || mem == nil {
+				return // panics and stuck rigs are C07's (rigLiveness) and C06's
+			}
+			cores := map[int32]map[int]bool{}
+			for _, e := range s.Events {
+				if e.Kind == "W" {
+					if cores[e.Addr] == nil {
+						cores[e.Addr] = map[int]bool{}
+					}
+					cores[e.Addr][e.Core] = true
+				}
+			}
+			var bad []string
+			for addr, vals := range written {
+				if len(cores[addr]) != 1 {
+					continue // writers on several cores: the order is the protocol's choice
+				}
+				mu.Lock()
+				checked++
+				mu.Unlock()
+				if want := vals[len(vals)-1]; mem[addr] != want {
+					bad = append(bad, fmt.Sprintf("memory[%d] = %d, want %d", addr, mem[addr], want))
+				}
+			}
+			if len(bad) == 0 {
+				return
+			}
+			sort.Strings(bad)
+			if len(bad) > 4 {
+				bad = append(bad[:4], fmt.Sprintf("... %d more", len(bad)-4))
+			}
+			desc := fmt.Sprintf("rig %s: after the final export %s", s.String(), strings.Join(bad, "; "))
+			cfg := Config{Variant: s.Variant, Par: s.Cores}
+			var tags []string
+			for _, t := range s.Tags {
+				tags = append(tags, t+":value")
+			}
+			if id := matchFinding("C05", tags, &cfg, "value"); id != "" {
+				r.KnownOn(id, cfg.String(), desc)
+				return
+			}
+			ss := s
+			r.ViolateMin("rigmem|"+s.Variant, len(s.Events)*1000+s.Events[len(s.Events)-1].T, desc, func() any { return ss })
+		})
+		n += len(scheds)
+	}
+	r.Cov["rig_schedules_with_final_memory_check"] = n
+	r.Cov["rig_written_addresses_checked"] = checked
 }
 
 // rigDeterminism: the cache controllers of the multi-core variants driven by the verif rig (the schedules
